@@ -68,6 +68,8 @@ package store
 //@   requires wfkey(bytes(key))
 //@   requires len(key) + len(value) < (1 << 31)
 //@   requires s.err != types.ErrKeyExists
+//@   unreachable return#1: the key is well-formed by precondition, so computing its index key cannot fail
+//@   unreachable return#9: FreeList.Put never fails
 //@   modifies s.index.$Ein, s.index.$Eblk, s.index.Primary.$Rin, s.index.Primary.$Rkey, s.index.Primary.$Rval, s.index.Primary.$Rused, s.freelist.$F, s.flushNotice, chan(s.flushNotice), s.index.$pending, s.index.Primary.$pending, s.freelist.$pending
 //@   ensures @exists err == types.ErrKeyExists ==> s.immutable && old(has(s, IK())) && sameview(s) && FL(s) == old(FL(s))
 //@   ensures @put err == nil ==> has(s, IK()) && val(s, IK()) == bytes(value)
@@ -83,6 +85,7 @@ package store
 //@ func (s *Store) Remove(key []byte) (removed bool, err error)  property C01 C13
 //@   define IK() = ikey(bytes(key))
 //@   requires SI(s)
+//@   unreachable return#7: FreeList.Put never fails
 //@   modifies s.index.$Ein, s.freelist.$F, s.flushNotice, chan(s.flushNotice), s.index.$pending, s.freelist.$pending
 //@   ensures @result err == nil ==> removed == old(has(s, IK()))
 //@   ensures @gone err == nil ==> !has(s, IK())
